@@ -168,6 +168,36 @@ def session_restore(chk, F, fn, bb, j, fk, where):
     chk.decide(okr, "ans-store-guards", fk, "restore:reply-carries-the-child's-ans", where,
                "the reply carries the child's previous_result as it is after the evaluation",
                "the reply does not carry Context.previous_result back to the parent: %s" % rets)
+    # the transport is faithful: a float stays a float (an approximate previous answer must not come back as an exact ratio: later
+    # arithmetic would be exact, `sqrt(2)` then `ans^2 - 2` answers something else than in one context), nothing is dropped (NaN is
+    # a previous answer too), and to_rational() is applied to rationals only
+    conv = {}
+    for f in F.by_crate["rink"]:
+        if f.path in ("service::Ans::new", "service::Ans::number"):
+            conv[f.path.split("::")[-1]] = f
+    if len(conv) == 2:
+        new_, num_ = conv["new"], conv["number"]
+        tr = [b2 for b2, t in new_.calls() if "callee" in t and t["callee"]["path"].endswith("Numeric::to_rational")]
+
+        def acc(kind, ap, info):
+            if kind == "variant" and info.get("enum", "").endswith("types::numeric::Numeric"):
+                return {"Rational"}
+            return None
+        import k2
+        gated = True
+        if tr:
+            res, matched = k2.cut_gate(new_, tr, acc)
+            gated = bool(matched) and all(res.values())
+        floats_out = any(st.get("rv", {}).get("k") == "agg" and any("as Float" in ap_str(new_.apath(o)) for o in st["rv"].get("ops", [])) for i, jj, st in new_.stmts())
+        floats_in = any(st.get("rv", {}).get("k") == "agg" and str(st["rv"].get("adt", "")).endswith("types::numeric::Numeric") and st["rv"].get("variant") == "Float" for i, jj, st in num_.stmts())
+        total = bool(rets) and all("Option::<T>::map(" in r[1] for r in rets if len(r) == 2)
+        chk.decide(gated and floats_out and floats_in and total, "ans-store-guards", fk, "restore:transport-keeps-the-value-as-it-is", new_.where(),
+                   "a Float travels as a float and a Rational as numerator/denominator; every previous answer is sent back (Option::map)",
+                   "the copy of ans that travels between the processes is not the value itself (to_rational behind the Rational test: %s; float sent as "
+                   "float: %s; float rebuilt as float: %s; nothing dropped: %s): `sqrt(2)` then `ans^2 - 2` answers differently in the sandboxed CLI, "
+                   "and after `asin(2)` there is no ans" % (gated, floats_out, floats_in, total))
+    else:
+        raise AnchorLost("cli service: Ans::new / Ans::number not found (%s)" % sorted(conv))
     # parent side (cli::repl, an async fn: its locals live in the coroutine state): the request carries a clone of one state
     # field of type Option<Ans>, and that field is only ever assigned None (at the start) or the `.result.1` of an Ok reply
     par = [f for f in F.by_crate["rink"] if f.path.startswith("repl::interactive_sandboxed")]
